@@ -1,10 +1,10 @@
 #!/bin/bash
+# development helper: applies every kept behaviour-preserving patch (harmless/Cxx_*) to /repo, runs the property's quick
+# check (which should exit 0), reverts; one line per patch
 cd /verif
-for p in 01 02 03 04 05 06 07 08 09 10 11 12 13 14 15 16 17 18 19 20; do
-  for h in h1 h2 h3; do
-    d=/verif/harmless/C${p}_$h
-    [ -f $d/patch.diff ] || { echo "C$p $h: missing"; continue; }
-    r=$(bin/try_harmless.sh C$p $d 2>&1 | grep -E "check exit" | head -1)
-    echo "C$p $h: $r"
-  done
+for d in harmless/C*_*; do
+  [ -f $d/patch.diff ] || continue
+  id=$(basename $d); p=${id%%_*}
+  r=$(bin/try_harmless.sh $p /verif/$d 2>&1 | grep -E "check exit|PATCH DOES NOT APPLY" | head -1)
+  echo "$id: $r"
 done
